@@ -222,6 +222,10 @@ func UF(name string, n int, in []byte) []byte {
 	return out[:n]
 }
 
+// Fn is an uninterpreted function (functional consistency only) of a byte string with n output bytes under the
+// engine; natively it is the same SHA-256-based expansion as UF. (intercepted)
+func Fn(name string, n int, in []byte) []byte { return UF("fn:"+name, n, in) }
+
 // IntMode switches the engine to the mathematical-integer encoding for this harness (must be the first
 // call). No effect natively. (intercepted)
 func IntMode() {}
